@@ -498,6 +498,23 @@ def check_C01(tier, seed):
              # "with its right context, if any, satisfied": some definitions with contexts too
              + F.random_general(seed + 2, n // 3, 8000, k=k, nsets=(1,), nrules=(2, 3, 4), p_sugar=0.2,
                                 menu_sizes=(1,), p_fal=0.0, p_ctx=0.45, depth=2))
+    # "of the active rule set": the same shapes in a rule set other than Init, entered by a
+    # switch (seed S-F10: rewind flags lost for every rule set but Init)
+    from progs import chr_ as _chr, Program as _Program
+    mm_a = F.random_mm(seed + 4, max(6, n // 4), 0, k=k - 1)
+    fx = F.fixed_mm(0)
+    mm_b = fx[:2] + fx[3:8] + F.random_mm(seed + 5, max(6, n // 4), 0, k=k - 1)
+    for i, pb in enumerate(mm_b):
+        pa = mm_a[i % len(mm_a)]
+        init = [F.inf_rule(_chr(120), menu=[F.D(i % 2 == 0, 1, 1 if i % 3 else 0)])] + pa.sets[0][1]
+        back = [F.inf_rule(_chr(120), menu=[F.D(False, 0, 1)])] if i % 2 else []
+        sig = sorted(set(list(pa.sigma) + list(pb.sigma) + [120]))
+        if len(sig) > 5:
+            continue
+        q = _Program(12000 + i, [("Init", init), ("S1", pb.sets[0][1] + back)], sigma=sig, k=k)
+        if q.well_formed():
+            progs.append(q)
+    progs += F.join_templates(seed + 6, max(6, n // 4), 14000, k=k, nsets=(2,), p_eoi=0.0)
     import random
     rnd = random.Random(seed)
     for p in progs:
@@ -512,7 +529,8 @@ def check_C01(tier, seed):
         "token sequence differs from the maximal-munch reference",
         "programs: 10 fixed maximal-munch shapes (the property's own examples, issue 16, cycles and "
         "joins) + seeded random 2-6 rule single-rule-set definitions with and without `rule` "
-        "blocks; " + INPUTS_RULE + "compared: (rule, lexeme byte span) of every action and token",
+        "blocks + the same shapes in a second rule set entered by a switch + join templates over "
+        "two rule sets; " + INPUTS_RULE + "compared: (rule, lexeme byte span) of every action and token",
         artifact="accepting rules / rewind flags of the compiled automaton are wrong")
 
 
@@ -851,10 +869,19 @@ def trace_part(out, pid, tier, progs, ws, batches, seed, n_runs, maxlen, proj, w
     byid = {p.id: p for p in progs}
     live = {p.id for b_ in batches for p in b_}
     reqs = []
+    extra_budget = [4000000]
     for p in progs:
         if p.id not in live:
             continue
-        rs = random_inputs(rnd, p, n_runs, maxlen, extra_inputs)
+        # long extra inputs only while the total stays within a budget (every recorded event is
+        # kept in memory: 100000-character inputs for 700 programs would need > 50 GB)
+        ex = extra_inputs
+        cost = sum(len(x) for x in ex)
+        if cost > extra_budget[0]:
+            ex = [x for x in ex if len(x) <= 2000]
+        else:
+            extra_budget[0] -= cost
+        rs = random_inputs(rnd, p, n_runs, maxlen, ex)
         for r in rs:
             r["ctor"] = rnd.choice(list(ctors))
         reqs.extend(rs)
@@ -1394,7 +1421,9 @@ def check_C11(tier, seed):
                 "_ = 1` over the digits (sets, ranges, `_`, `|`, `#`, chained and nested differences, "
                 "variables, and the 13 built-in classes whose tables equal this toolchain's predicates, "
                 "with the predicate ranges imported as the specification's tables) run on every "
-                "boundary point +-1 against RefLexer.tla" % maxpoint,
+                "boundary point +-1 against RefLexer.tla; and families.arm_family (classes in the "
+                "middle of rules that share a prefix: one state with character, range and `_` arms "
+                "at once) on all inputs of length <= 3" % maxpoint,
         "samples": [{"transition": trs[0]}] if trs else [],
         "tlc_cmd": tlc.cmd, "exhaustive": True,
     }
@@ -1402,6 +1431,8 @@ def check_C11(tier, seed):
     n = sizes(tier, 100, 800)
     tables = predicate_tables()
     progs = [p for p in class_family(seed, n, 100, tables=tables)]
+    # classes in the middle of a rule, several of them leaving the same state (families.arm_family)
+    progs += F.arm_family(seed + 1, sizes(tier, 100, 500), 50000)
     byid = {p.id: p for p in progs}
     fr = replay_family("C11", progs, workers=8, tlc_timeout=900)
     other = replay_violations(out, fr, lambda evs: proj_tokens(evs, stop_at_invalid=False), byid,
@@ -2298,7 +2329,9 @@ def check_C02(tier, seed):
             pid_ += 1
     if tier == "quick":
         pairs_ = rnd.sample(pairs_, min(len(pairs_), 90))
-    allp = progs + big + classes + pairs_
+    # one state with character, range and `_` transitions at once, overlapping in every way
+    arms = F.arm_family(seed, sizes(tier, 120, 500), 500000)
+    allp = progs + big + classes + pairs_ + arms
     byid = {p.id: p for p in allp}
     ws, dumps, outs, ok, err = dump_programs("C02", allp, nb=14)
     pairs = []
@@ -2339,7 +2372,7 @@ def check_C02(tier, seed):
     if not orc.ok:
         raise ToolError("the reference specification is inconsistent (declarative vs derivative): " + str(orc.error))
     # a sample compiled for real and run on all inputs
-    run_sample = rnd.sample(progs, min(len(progs), sizes(tier, 100, 600))) + big[:sizes(tier, 30, 300)]
+    run_sample = rnd.sample(progs, min(len(progs), sizes(tier, 100, 600))) + big[:sizes(tier, 30, 300)] + arms
     fr = replay_family("C02", run_sample, workers=8, tlc_timeout=900)
     rb = {p.id: p for p in run_sample}
     other = replay_violations(out, fr, lambda evs: proj_tokens(evs, stop_at_invalid=False), rb,
@@ -2371,7 +2404,10 @@ def check_C02(tier, seed):
                 "checks that the declarative semantics (Ends, Open) and the derivative automaton "
                 "agree; Stages.tla: the NFA of every definition equals the one the specified Thompson "
                 "construction builds (state by state) and the DFA is the subset construction of that NFA "
-                "(product exploration); a sample is compiled and run on all inputs of length <= 4",
+                "(product exploration); a sample is compiled and run on all inputs of length <= 4, "
+                "as is families.arm_family (rules that share a prefix and diverge on overlapping "
+                "class atoms -- characters, ranges, sets with holes, `_`, `'b' | _` -- so that one "
+                "state has character, range and `_` arms at once with equal and different targets)",
         "samples": [{"definition": progs[7].body(), "dump_states": len(dumps[progs[7].id]["dfa"])}] + fr.samples[:1],
         "tlc_cmd": res.cmd, "exhaustive": True,
         "mismatches_outside_projection": other,
